@@ -143,6 +143,66 @@ def cosetEvals (d8 : Domain) (p : Poly) : Array Nat :=
   let e := d8.cosetFft p
   (e ++ e.take 8).toArray
 
+/-- `compute_permutation_vec`: `z₀ = 1`, `z_{i+1} = z_i · num_i / den_i`; `none` when a denominator vanishes
+    (the Rust code asserts) -/
+def permVec (n : Nat) (roots aS bS cS dS : List Nat) (sigE : List (List Nat)) (beta gamma : Nat) : Option (List Nat) :=
+  let nums := (List.range n).map fun i =>
+    let br := fmul beta (roots.getD i 0)
+    fmul (fmul (fmul (fadd (fadd (aS.getD i 0) br) gamma) (fadd (fadd (bS.getD i 0) (fmul br Generated.K1)) gamma))
+               (fadd (fadd (cS.getD i 0) (fmul br Generated.K2)) gamma))
+         (fadd (fadd (dS.getD i 0) (fmul br Generated.K3)) gamma)
+  let dens := (List.range n).map fun i =>
+    let s (j : Nat) := (sigE.getD j []).getD i 0
+    fmul (fmul (fmul (fadd (fadd (aS.getD i 0) (fmul beta (s 0))) gamma) (fadd (fadd (bS.getD i 0) (fmul beta (s 1))) gamma))
+               (fadd (fadd (cS.getD i 0) (fmul beta (s 2))) gamma))
+         (fadd (fadd (dS.getD i 0) (fmul beta (s 3))) gamma)
+  if dens.any (· == 0) then none else
+  let densInv := batchInversion dens
+  some (((List.range n).foldl (fun (acc : List Nat × Nat) i =>
+      (acc.2 :: acc.1, if i + 1 < n then fmul acc.2 (fmul (nums.getD i 0) (densInv.getD i 0)) else acc.2)) ([], 1 % R)).1.reverse)
+
+/-- the quotient's evaluations on the coset of size `8n`: `(t₁ + t₂)·Z_H⁻¹`, index by index, exactly as
+    `quotient_poly::compute` (`a_w = a[i+8]`: the wire vectors carry 8 wrap-around entries) -/
+def quotientEvals (size8 : Nat) (selE sigE8 : Array (Array Nat)) (linE aE bE cE dE zE piE vh vhInv8 l1Den : Array Nat)
+    (nInv8 beta gamma alpha rSep lSep fSep vSep : Nat) : List Nat :=
+  let alphaSq := fsq alpha
+  let q (j i : Nat) : Nat := (selE.getD j #[]).getD i 0
+  (List.range size8).map fun i =>
+    let a := aE.getD i 0; let b := bE.getD i 0; let cc := cE.getD i 0; let dd := dE.getD i 0
+    let aw := aE.getD (i + 8) 0; let bw := bE.getD (i + 8) 0; let dw := dE.getD (i + 8) 0
+    let z := zE.getD i 0; let zw := zE.getD (i + 8) 0
+    let g : Gate := { qm := q 0 i, ql := q 1 i, qr := q 2 i, qo := q 3 i, qf := q 4 i, qc := q 5 i, qarith := q 6 i }
+    let ev : Evals := { a := a, b := b, c := cc, d := dd, aw := aw, bw := bw, dw := dw, qarith := 0, qc := q 5 i,
+                        ql := q 1 i, qr := q 2 i, s1 := 0, s2 := 0, s3 := 0, z := 0 }
+    let t1 := fadd (fadd (fadd (fadd (fadd (arithVal g a b cc dd 0) (fmul (q 7 i) (rangeScalar rSep ev)))
+                  (fmul (q 8 i) (logicScalar lSep ev))) (fmul (q 9 i) (fixedScalar fSep ev)))
+                  (fmul (q 10 i) (varScalar vSep ev))) (piE.getD i 0)
+    let xx := linE.getD i 0
+    let s (j : Nat) := (sigE8.getD j #[]).getD i 0
+    let idp := fmul (fmul (fmul (fmul (fmul (fadd (fadd a (fmul beta xx)) gamma)
+                  (fadd (fadd b (fmul (fmul beta Generated.K1) xx)) gamma))
+                  (fadd (fadd cc (fmul (fmul beta Generated.K2) xx)) gamma))
+                  (fadd (fadd dd (fmul (fmul beta Generated.K3) xx)) gamma)) z) alpha
+    let cpp := fneg (fmul (fmul (fmul (fmul (fmul (fadd (fadd a (fmul beta (s 0))) gamma)
+                  (fadd (fadd b (fmul beta (s 1))) gamma)) (fadd (fadd cc (fmul beta (s 2))) gamma))
+                  (fadd (fadd dd (fmul beta (s 3))) gamma)) zw) alpha)
+    let l1 := fmul (fmul (l1Den.getD i 0) (fmul (vh.getD i 0) nInv8)) alphaSq
+    let t2 := fadd (fadd idp cpp) (fmul (fsub z 1) l1)
+    fmul (fadd t1 t2) (vhInv8.getD (i % 8) 0)
+
+/-- split the quotient into four shares of `n` coefficients and re-randomise them with `b₁₂ b₁₃ b₁₄`
+    (`t_low + b₁₂Xⁿ`, `t_mid − b₁₂ + b₁₃Xⁿ`, `t_high − b₁₃ + b₁₄Xⁿ`, `t_fourth − b₁₄`); `none` where the
+    Rust slicing `t_poly[3n..]` / `t_fourth_vec[0]` would panic -/
+def splitQuotient (n : Nat) (tPoly : Poly) (b12 b13 b14 : Nat) : Option (Poly × Poly × Poly × Poly) :=
+  let sub0 (l : List Nat) (b : Nat) : List Nat := match l with | [] => [] | h :: r => fsub h b :: r
+  if tPoly.length < 3 * n then none else
+  let tFourthV := tPoly.drop (3 * n)
+  if tFourthV.isEmpty then none else
+  some (Poly.ofCoeffs (tPoly.take n ++ [b12]),
+        Poly.ofCoeffs (sub0 ((tPoly.drop n).take n) b12 ++ [b13]),
+        Poly.ofCoeffs (sub0 ((tPoly.drop (2 * n)).take n) b13 ++ [b14]),
+        Poly.ofCoeffs (sub0 tFourthV b14))
+
 structure ProveTrace where
   proof : ProofM
   pis : List Nat
@@ -182,20 +242,9 @@ def prove (k : PKey) (c : Composer) (draws : List Nat) (v3 : Bool := true) : Exc
     -- round 2: permutation vector
     let roots := d.elements
     let sigE : List (List Nat) := (List.range 4).map fun i => d.fft (k.sigma.getD i [])
-    let nums := (List.range n).map fun i =>
-      let br := fmul beta (roots.getD i 0)
-      fmul (fmul (fmul (fadd (fadd (aS.getD i 0) br) gamma) (fadd (fadd (bS.getD i 0) (fmul br Generated.K1)) gamma))
-                 (fadd (fadd (cS.getD i 0) (fmul br Generated.K2)) gamma))
-           (fadd (fadd (dS.getD i 0) (fmul br Generated.K3)) gamma)
-    let dens := (List.range n).map fun i =>
-      let s (j : Nat) := (sigE.getD j []).getD i 0
-      fmul (fmul (fmul (fadd (fadd (aS.getD i 0) (fmul beta (s 0))) gamma) (fadd (fadd (bS.getD i 0) (fmul beta (s 1))) gamma))
-                 (fadd (fadd (cS.getD i 0) (fmul beta (s 2))) gamma))
-           (fadd (fadd (dS.getD i 0) (fmul beta (s 3))) gamma)
-    if dens.any (· == 0) then .error .panicDenominator else
-    let densInv := batchInversion dens
-    let perm := ((List.range n).foldl (fun (acc : List Nat × Nat) i =>
-        (acc.2 :: acc.1, if i + 1 < n then fmul acc.2 (fmul (nums.getD i 0) (densInv.getD i 0)) else acc.2)) ([], 1 % R)).1.reverse
+    match permVec n roots aS bS cS dS sigE beta gamma with
+    | none => .error .panicDenominator
+    | some perm =>
     match takeDraws 3 draws with
     | none => .error .notEnoughDraws
     | some (zb, draws) =>
@@ -221,47 +270,16 @@ def prove (k : PKey) (c : Composer) (draws : List Nat) (v3 : Bool := true) : Exc
     let vhInv8 := (batchInversion ((vh.toList).take 8)).toArray
     let l1Den := (batchInversion (linE.toList.map fun e => fsub e 1)).toArray
     let nInv8 := fmul d8.sizeInv 8
-    let alphaSq := fsq alpha
-    let q (j i : Nat) : Nat := (selE.getD j #[]).getD i 0
-    let quot : List Nat := (List.range d8.size).map fun i =>
-      let a := aE.getD i 0; let b := bE.getD i 0; let cc := cE.getD i 0; let dd := dE.getD i 0
-      let aw := aE.getD (i + 8) 0; let bw := bE.getD (i + 8) 0; let dw := dE.getD (i + 8) 0
-      let z := zE.getD i 0; let zw := zE.getD (i + 8) 0
-      let g : Gate := { qm := q 0 i, ql := q 1 i, qr := q 2 i, qo := q 3 i, qf := q 4 i, qc := q 5 i, qarith := q 6 i }
-      let ev : Evals := { a := a, b := b, c := cc, d := dd, aw := aw, bw := bw, dw := dw, qarith := 0, qc := q 5 i,
-                          ql := q 1 i, qr := q 2 i, s1 := 0, s2 := 0, s3 := 0, z := 0 }
-      let t1 := fadd (fadd (fadd (fadd (fadd (arithVal g a b cc dd 0) (fmul (q 7 i) (rangeScalar rSep ev)))
-                    (fmul (q 8 i) (logicScalar lSep ev))) (fmul (q 9 i) (fixedScalar fSep ev)))
-                    (fmul (q 10 i) (varScalar vSep ev))) (piE.getD i 0)
-      let xx := linE.getD i 0
-      let s (j : Nat) := (sigE8.getD j #[]).getD i 0
-      let idp := fmul (fmul (fmul (fmul (fmul (fadd (fadd a (fmul beta xx)) gamma)
-                    (fadd (fadd b (fmul (fmul beta Generated.K1) xx)) gamma))
-                    (fadd (fadd cc (fmul (fmul beta Generated.K2) xx)) gamma))
-                    (fadd (fadd dd (fmul (fmul beta Generated.K3) xx)) gamma)) z) alpha
-      let cpp := fneg (fmul (fmul (fmul (fmul (fmul (fadd (fadd a (fmul beta (s 0))) gamma)
-                    (fadd (fadd b (fmul beta (s 1))) gamma)) (fadd (fadd cc (fmul beta (s 2))) gamma))
-                    (fadd (fadd dd (fmul beta (s 3))) gamma)) zw) alpha)
-      let l1 := fmul (fmul (l1Den.getD i 0) (fmul (vh.getD i 0) nInv8)) alphaSq
-      let t2 := fadd (fadd idp cpp) (fmul (fsub z 1) l1)
-      fmul (fadd t1 t2) (vhInv8.getD (i % 8) 0)
+    let quot := quotientEvals d8.size selE sigE8 linE aE bE cE dE zE piE vh vhInv8 l1Den nInv8
+                  beta gamma alpha rSep lSep fSep vSep
     let tPoly := Poly.ofCoeffs (d8.cosetIfft quot)
     if tPoly.length > 7 * n then .error .circuitUnsatisfied else
-    if tPoly.length < 3 * n then .error .panicSlice else
     match takeDraws 3 draws with
     | none => .error .notEnoughDraws
     | some (tb, draws) =>
-    let b12 := tb.getD 0 0; let b13 := tb.getD 1 0; let b14 := tb.getD 2 0
-    let sub0 (l : List Nat) (b : Nat) : List Nat := match l with | [] => [] | h :: r => fsub h b :: r
-    let tLowV := tPoly.take n ++ [b12]
-    let tMidV := sub0 ((tPoly.drop n).take n) b12 ++ [b13]
-    let tHighV := sub0 ((tPoly.drop (2 * n)).take n) b13 ++ [b14]
-    let tFourthV := tPoly.drop (3 * n)
-    -- `t_fourth_vec[0] -= b_14` panics on an empty slice
-    if tFourthV.isEmpty then .error .panicSlice else
-    let tFourthV := sub0 tFourthV b14
-    let tLowP := Poly.ofCoeffs tLowV; let tMidP := Poly.ofCoeffs tMidV
-    let tHighP := Poly.ofCoeffs tHighV; let tFourthP := Poly.ofCoeffs tFourthV
+    match splitQuotient n tPoly (tb.getD 0 0) (tb.getD 1 0) (tb.getD 2 0) with
+    | none => .error .panicSlice
+    | some (tLowP, tMidP, tHighP, tFourthP) =>
     match commit4 k tLowP tMidP tHighP tFourthP with
     | .error e => .error e
     | .ok (tlC, tmC, thC, tfC) =>
@@ -300,7 +318,7 @@ def prove (k : PKey) (c : Composer) (draws : List Nat) (v3 : Bool := true) : Exc
                   (fadd (fadd ev.b (fmul beta ev.s2)) gamma)) (fadd (fadd ev.c (fmul beta ev.s3)) gamma)) (fmul beta ev.z)) alpha))
     let l1Dom := (Domain.new? (Poly.degree zP - 2)).getD d
     let l1z := (l1Dom.lagrangeCoeffs zc).headD 0
-    let oneL := Poly.scale zP (fmul l1z alphaSq)
+    let oneL := Poly.scale zP (fmul l1z (fsq alpha))
     let f2 := padd (padd idL cpL) oneL
     let zn := fpow zc n; let z2n := fpow zc (2 * n); let z3n := fpow zc (3 * n)
     let quotL := padd (padd (padd tLowP (Poly.scale tMidP zn)) (Poly.scale tHighP z2n)) (Poly.scale tFourthP z3n)
